@@ -333,6 +333,81 @@ fn main() {
             limit(&mut cr.violations, 3);
             cr
         }));
+        // ------------------------------------------------------------ filter decisions for packets of EXISTING sessions
+        // listen kind x adds x removes x probe kind (data, close-session packet, data / FDT packet carrying the A flag):
+        // the session is opened while accepted, then the counts are changed; the probe must be processed iff adds > removes
+        let kinds = 3usize; // 0 exact (endpoint with source), 1 wildcard-source entry, 2 all TSIs of the endpoint
+        let probes = 4usize; // 0 rest of the data, 1 close-session packet, 2 data packet with A=1, 3 FDT packet with A=1
+        let n_ex = kinds * 2 * 3 * probes * 2;
+        gens.push(Gen::new("filter_existing_sessions", n_ex, move |ctx, i| {
+            let mut cr = CaseResult::default();
+            let (kind, adds, removes, probe, tsi) = (i % 3, 1 + (i / 3) % 2, (i / 6) % 3, (i / 18) % 4, 1 + ((i / 72) % 2) as u64);
+            let pkts = mini_session(tsi, Fec::NoCode, 70, ctx.seed);
+            let src = ep(0);
+            // the all-TSI entry matches the endpoint exactly (no source wildcard there)
+            let listen_ep = match kind { 1 => ep(1), _ => ep(0) };
+            let want = adds > removes;
+            let listen_name = match kind { 0 => "exact", 1 => "wildcard source", _ => "all TSIs" };
+            let probe_name = ["data", "close_session_packet", "data_with_A", "fdt_with_A"][probe];
+            let wit = json!({"listen": listen_name, "adds": adds, "removes": removes, "probe": probe_name, "tsi": tsi});
+            let r = util::guarded(|| {
+                let evs: Rc<RefCell<Vec<(usize, LEv)>>> = Rc::new(RefCell::new(vec![]));
+                let call = Rc::new(RefCell::new(0usize));
+                let (b, log) = MonBuilder::new(Script::default());
+                let mut rx = MultiReceiver::new(b, Some(RxConfig { object_timeout: None, ..Default::default() }), true);
+                rx.add_listener(RecListener { log: evs.clone(), call: call.clone() });
+                let now = util::at(1000);
+                for _ in 0..adds {
+                    if kind == 2 { rx.add_listen_all_tsi(listen_ep.clone()); } else { rx.add_listen_tsi(listen_ep.clone(), tsi); }
+                }
+                // open the session: FDT + first object packet
+                for p in pkts.iter().take(2) {
+                    let _ = rx.push(&src, p, now);
+                }
+                let opened = evs.borrow().iter().filter(|e| matches!(e.1, LEv::Open(..))).count();
+                for _ in 0..removes {
+                    if kind == 2 { rx.remove_listen_all_tsi(&listen_ep); } else { rx.remove_listen_tsi(&listen_ep, tsi); }
+                }
+                let before = (evs.borrow().len(), log.borrow().events.len());
+                let set_a = |b: &Vec<u8>| {
+                    let mut x = b.clone();
+                    x[1] |= 0x02; // A flag (RFC 5651: second byte, bit value 2)
+                    x
+                };
+                match probe {
+                    0 => for p in pkts.iter().skip(2) { let _ = rx.push(&src, p, now); },
+                    1 => { let _ = rx.push(&src, &flute::verif::new_alc_pkt_close_session(&0u128, tsi), now); }
+                    2 => { let _ = rx.push(&src, &set_a(&pkts[2]), now); }
+                    _ => { let _ = rx.push(&src, &set_a(&pkts[0]), now); }
+                }
+                let after = (evs.borrow().len(), log.borrow().events.len());
+                (opened, before, after)
+            });
+            match r {
+                Err(p) => cr.violations.push(Violation::new("panic", format!("{} @ {}", p.msg, p.short_loc())).with("site", p.file()).witness(wit)),
+                Ok((opened, before, after)) => {
+                    if opened != 1 {
+                        cr.inconclusive = Some(format!("session not opened once ({}) in the set-up phase", opened));
+                        return cr;
+                    }
+                    let processed = after != before;
+                    cr.count("existing_session_probes", 1);
+                    if processed != want {
+                        cr.violations.push(Violation::new("filter_decision_existing_session", format!(
+                            "session open, then {} add(s) / {} remove(s) of the {} entry: a {} probe of that session is {} (listener events {} -> {}, writer events {} -> {}) but the reference filter says {}",
+                            adds, removes, wit["listen"], wit["probe"], if processed { "processed" } else { "dropped" }, before.0, after.0, before.1, after.1, if want { "processed" } else { "dropped" }))
+                            .with("processed", processed).with("probe", wit["probe"].as_str().unwrap_or("")).with("listen", wit["listen"].as_str().unwrap_or(""))
+                            .witness(wit.clone()));
+                    }
+                    cr.shape = Some(util::fnv(&format!("fx{}", i)));
+                    cr.states = vec![util::fnv(&format!("fx|{}|{}", want, processed))];
+                    if i % 29 == 0 {
+                        cr.sample = Some(json!({"case": wit, "expected_processed": want, "processed": processed}));
+                    }
+                }
+            }
+            cr
+        }));
         // ------------------------------------------------------------ listeners
         let nl = ctx.tier.pick(3000usize, 80_000);
         gens.push(Gen::new("listener_scripts", nl, move |ctx, i| {
